@@ -2,6 +2,8 @@
 // Tier K harness module, child of src/clause.rs: contracts of the 15 tuple impls of `Clause` (C14).
 use super::*;
 #[allow(unused_imports)]
+use crate::{Clause, MockFnInfo};
+#[allow(unused_imports)]
 use crate::alloc::{vec, String, Vec};
 use core::cell::Cell;
 
